@@ -37,6 +37,9 @@ class Cfg:
         self.meta = kw.get('meta', None)          # strategy for metadata list or None
         self.langs = kw.get('langs', st.sampled_from([None, 'python', 'c']))
         self.cell_inlines = kw.get('cell_inlines', ['t', 'em', 'code'])
+        self.lead = kw.get('lead', st.just(0))               # 0..3 blanks before ATX / list markers (same rendering)
+        self.sublists = kw.get('sublists', False)            # list items may carry a nested list (['sublist', list, gap])
+        self.refids = kw.get('refids', st.sampled_from(['ref1', 'Ref Two', 'r-3']))
         self.cell_pad = kw.get('cell_pad', st.just(True))      # False: cells written without padding blanks (|a|b|)
 
 
@@ -59,6 +62,9 @@ def inlines(cfg, depth=None, inlink=False, max_n=4, allow=None):
                         .map(lambda t: ['link', t[0], t[1], t[2], t[3]]))
     if 'code' in kinds:
         opts.append(cfg.code.map(lambda c: ['code', c]))
+    if 'reflink' in kinds and not inlink:
+        opts.append(st.tuples(st.sampled_from(['full', 'implicit', 'shortcut']), text(cfg, 2), cfg.refids, st.integers(0, 2))
+                    .map(lambda t: ['reflink', t[0], [t[1]], t[2], t[3]]))       # last: how the label is re-spelled at the point of use (case)
     if 'auto' in kinds and not inlink:
         opts.append(st.sampled_from(['http://auto.example/alpha', 'https://auto.example/b/c']).map(lambda u: ['auto', u]))
     if 'email' in kinds and not inlink:
@@ -107,7 +113,7 @@ def blocks(cfg, depth=None, max_n=None, top=True):
         opts += [p, p]
     hinl = inlines(cfg, 1, False, 3, ['t', 'em', 'st', 'code'])
     if 'atx' in kinds:
-        opts.append(st.tuples(st.integers(1, 6), hinl, st.booleans()).map(lambda t: ['atx', t[0], t[1], t[2]]))
+        opts.append(st.tuples(st.integers(1, 6), hinl, st.booleans(), cfg.lead).map(lambda t: ['atx', t[0], t[1], t[2], t[3]]))
     if 'setext' in kinds:
         opts.append(st.tuples(st.integers(1, 2), hinl).map(lambda t: ['setext', t[0], t[1]]))
     if 'hr' in kinds:
@@ -135,9 +141,27 @@ def blocks(cfg, depth=None, max_n=None, top=True):
             opts.append(blocks(cfg, depth - 1, 2, False).map(lambda b: ['quote', b]))
         if 'list' in kinds:
             item = st.tuples(inlines(cfg, 1), st.one_of(st.just([]), st.just([]), blocks(cfg, depth - 1, 1, False)))
-            opts.append(st.tuples(st.sampled_from(['ul', 'ol']), st.booleans(), st.sampled_from('*+-'), st.lists(item, min_size=1, max_size=3))
-                        .map(lambda t: ['list', t[0], t[1], t[2], [[i[0], i[1]] for i in t[3]]]))
+            plain = st.tuples(st.sampled_from(['ul', 'ol']), st.booleans(), st.sampled_from('*+-'), st.lists(item, min_size=1, max_size=3), cfg.lead) \
+                .map(lambda t: ['list', t[0], t[1], t[2], [[i[0], i[1]] for i in t[3]], t[4]])
+            opts.append(plain)
+            if cfg.sublists:
+                leaf = st.tuples(st.sampled_from(['ul', 'ol']), st.booleans(), st.sampled_from('*+-'), st.lists(inlines(cfg, 1, False, 2), min_size=1, max_size=3)) \
+                    .map(lambda t: ['list', t[0], t[1] and len(t[3]) > 1, t[2], [[i, []] for i in t[3]], 0])
+                opts.append(st.tuples(st.sampled_from(['ul', 'ol']), st.booleans(), st.sampled_from('*+-'), st.lists(inlines(cfg, 1, False, 2), min_size=1, max_size=3),
+                                      leaf, st.integers(0, 2), st.booleans()).map(nest_list))
     return st.lists(st.one_of(*opts), min_size=1, max_size=max_n).map(fix_blocks)
+
+
+def nest_list(t):
+    """A list with one nested list.  Kept inside the unambiguous uses: a tight parent carries the nested list in its LAST item (so blank lines
+    inside the nested list cannot be read as separating parent items) and directly under the item's line; a loose parent may carry it in
+    any item, optionally after a blank line (`gap`)."""
+    kind, loose, marker, firsts, sub, pos, gap = t
+    loose = loose and len(firsts) > 1
+    pos = pos % len(firsts) if loose else len(firsts) - 1
+    items = [[f, []] for f in firsts]
+    items[pos][1] = [['sublist', sub, bool(gap and loose)]]
+    return ['list', kind, loose, marker, items, 0]
 
 
 def fix_blocks(bs):
@@ -158,9 +182,9 @@ def fix_blocks(bs):
         if b[0] == 'list':
             items = []
             for first, rest in b[4]:
-                rest = [r for r in rest if r[0] in ('para',)]
+                rest = [r for r in rest if r[0] in ('para', 'sublist')]
                 items.append([first, rest])
-            b = ['list', b[1], b[2], b[3], items]
+            b = ['list', b[1], b[2], b[3], items] + list(b[5:])
         if prev == 'deflist' and b[0] == 'para':
             out.append(['hr', '* * *'])
         out.append(b)
@@ -177,10 +201,15 @@ def document(cfg):
 def finish(doc):
     """Collect footnote definitions for every reference used (each defined once)."""
     used = []
+    rids = []
     def walk_inl(xs):
         for x in xs:
             if x[0] == 'fnref' and x[1] not in used:
                 used.append(x[1])
+            if x[0] == 'reflink':
+                if x[3].lower() not in [r.lower() for r in rids]:
+                    rids.append(x[3])
+                walk_inl(x[2])
             if x[0] in ('em', 'st'):
                 walk_inl(x[2])
             if x[0] == 'link':
@@ -194,6 +223,8 @@ def finish(doc):
                 walk_inl(b[2])
             elif b[0] == 'quote':
                 walk(b[1])
+            elif b[0] == 'sublist':
+                walk([b[1]])
             elif b[0] == 'list':
                 for first, rest in b[4]:
                     walk_inl(first)
@@ -206,7 +237,16 @@ def finish(doc):
                         walk_inl(c)
     walk(doc['blocks'])
     doc['notes'] = [[f, 'note text %s' % f] for f in used]
+    if rids:
+        doc['defs'] = [ref_def(r) for r in rids]
     return doc
+
+
+def ref_def(rid):
+    """The definition that goes with a reference label (a pure function of the label, so that models can recompute it)."""
+    slug = ''.join(c for c in rid.lower() if c.isalnum())
+    n = sum(ord(c) for c in rid) % 3
+    return [rid, 'http://ref.example/' + slug + ('?a=1&b=2' if n == 1 else ''), (None, 'Title of ' + slug, 'Say "quoted" & more')[n], ('"', '"', "'")[n]]
 
 
 # ---- serialiser ----------------------------------------------------------------------------------------------------------
@@ -230,7 +270,8 @@ def ser_inl(xs):
             parts.append('[' + ser_inl(x[1]) + '](' + x[2] + (' ' + q + x[3] + q if x[3] else '') + ')')
         elif k == 'reflink':
             form = x[1]
-            parts.append('[' + ser_inl(x[2]) + '][' + x[3] + ']' if form == 'full' else ('[' + x[3] + '][]' if form == 'implicit' else '[' + x[3] + ']'))
+            lab = x[3] if len(x) < 5 else (x[3], x[3].upper(), x[3].lower())[x[4]]      # labels are not case sensitive
+            parts.append('[' + ser_inl(x[2]) + '][' + lab + ']' if form == 'full' else ('[' + lab + '][]' if form == 'implicit' else '[' + lab + ']'))
         elif k == 'auto':
             parts.append('<' + x[1] + '>')
         elif k == 'email':
@@ -263,7 +304,7 @@ def ser_block(b):
         sep = {'nl': '\n', '2sp': '  \n', 'bs': '\\\n'}[b[2]]
         return sep.join(ser_inl(l) for l in b[1])
     if k == 'atx':
-        return '#' * b[1] + ' ' + ser_inl(b[2]) + (' ' + '#' * b[1] if b[3] else '')
+        return ' ' * (b[4] if len(b) > 4 else 0) + '#' * b[1] + ' ' + ser_inl(b[2]) + (' ' + '#' * b[1] if b[3] else '')
     if k == 'setext':
         return ser_inl(b[2]) + '\n' + ('=' if b[1] == 1 else '-') * 5
     if k == 'hr':
@@ -279,8 +320,11 @@ def ser_block(b):
         lines = []
         for i, (first, rest) in enumerate(b[4]):
             mk = b[3] if b[1] == 'ul' else '%d.' % (i + 1)
-            item = mk + ' ' + ser_inl(first)
+            item = ' ' * (b[5] if len(b) > 5 else 0) + mk + ' ' + ser_inl(first)
             for rb in rest:
+                if rb[0] == 'sublist':
+                    item += ('\n\n' if rb[2] else '\n') + '\n'.join(('    ' + l if l else '') for l in ser_block(rb[1]).split('\n'))
+                    continue
                 item += '\n\n' + '\n'.join(('    ' + l if l else '') for l in ser_block(rb).split('\n'))
             lines.append(item)
         return ('\n\n' if b[2] else '\n').join(lines)
@@ -341,6 +385,8 @@ def block_kinds(bs, acc=None):
         acc.add(b[0])
         if b[0] == 'quote':
             block_kinds(b[1], acc)
+        elif b[0] == 'sublist':
+            block_kinds([b[1]], acc)
         elif b[0] == 'list':
             for _, rest in b[4]:
                 block_kinds(rest, acc)
